@@ -51,6 +51,10 @@ def gen_stream_messages(r, role):
             out.append(cw.msg(0, token=b""))                                # Empty message
             continue
         out.append(cw.msg(code, token=tok, options=opts, payload=pl))
+    if n >= 3 and r.random() < 0.12:
+        # RFC 8323 5.5/5.6: after Release or Abort the connection is over; what the peer
+        # still sends behind it is not for this session any more
+        out.insert(r.randrange(1, n - 1), cw.msg(r.choice([0xE4, 0xE5]), token=b""))
     return out
 
 
@@ -140,6 +144,8 @@ def client_tcp_run(exe, stream, plan, seed):
 def expected_surface(msgs, role):
     out = []
     for m in msgs:
+        if m["code"] in (0xE4, 0xE5):
+            break
         if role == "server":
             if 1 <= m["code"] <= 31 and (11, b"r") in m["options"] and \
                     not (m["code"] == 5 and not any(n == 12 for n, _ in m["options"])):
